@@ -125,6 +125,12 @@ def generate(rng, tier, boost):
     for _ in range(4000 if big else 350):
         n = rng.choice([3, 4, 5, 8, 16, 20, 21, 25, 32, 33, 37, 64, 65, 78, 100, 200, 299, 300, rng.randrange(3, 301)])
         add((1001, [rbytes(rng, n)]))
+    # long inputs (the codec has no length limit; recursion or quadratic tricks show here)
+    for n in ((700, 736, 800, 1200, 3000) if not big else (700, 735, 736, 737, 800, 1000, 1200, 2000, 3000, 5000)):
+        b = rbytes(rng, n)
+        add((1001, [b]))
+        add((1002, [cps(ref_encode(b))]))
+        add((1004, [rng.randrange(256), b]))
     # every leading-zero count 0..40, with no tail / a non-zero tail / a tail with inner zeros
     for z in range(41):
         add((1001, [b'\x00' * z]))
